@@ -211,6 +211,23 @@ def main(argv):
     results = run_shards(pid, shard_params, wd)
     ev, nt, samples, viols, counters, inconc = aggregate(results)
     findings = load_findings()
+    # every listed known finding carries a fixed witness case that is replayed on every run, so the
+    # KNOWN-FINDING line is printed as long as the defect is still there (and only then)
+    for k in findings.get('known', []):
+        if k['property'] == pid and k.get('witness_case') is not None:
+            sd = os.path.join(scratch_root(), 'zv-kf-%d' % os.getpid())
+            os.makedirs(sd, exist_ok=True)
+            try:
+                vs = mod.replay(k['witness_case'], sd)
+            except Exception:
+                vs = []
+                inconc.append('known-finding witness replay crashed: ' + traceback.format_exc()[-800:])
+            finally:
+                shutil.rmtree(sd, ignore_errors=True)
+            ev += 1
+            viols.extend(jsonable(vs))
+            if not any(v.get('mechanism') == k['mechanism'] for v in vs):
+                print('note: known finding %s did not reproduce on its recorded witness (repaired?)' % k['mechanism'])
     kn, unk = classify(pid, viols, findings)
     # monitors that must have been reached
     for name in getattr(mod, 'REQUIRED_COUNTERS', ()):
